@@ -54,8 +54,13 @@ ANCHORS = [
     "flow.record.jsonpacker:JsonRecordPacker.unpack_obj",
     "flow.record.adapter.avro:schema_to_descriptor",
 ]
-VIAS = ("api", "api-bytes", "stream", "stream-bin", "json", "json-plain", "avro-doc", "avro-nodoc")
-REPORTED_VIAS = ("json-plain", "avro-nodoc")  # the library derives the definition itself; the oracle looks at what it reports
+VIAS = ("api", "api-bytes", "stream", "stream-bin", "json", "json-plain", "avro-doc", "avro-nodoc", "api-text", "api-none", "stream-nil",
+        "json-null")
+# definitions delivered WITHOUT a field list: the deprecated text form "<type name>\n<type> <field>;\n..." given to the
+# constructor alone / with fields=None / in a descriptor frame whose field list is nil / in a JSON descriptor line with null
+TEXT_VIAS = ("api-text", "api-none", "stream-nil", "json-null")
+# the library derives the definition itself; the oracle looks at what it reports
+REPORTED_VIAS = ("json-plain", "avro-nodoc") + TEXT_VIAS
 AVRO_FROM_FLOW = {"string": "string", "varint": "long", "boolean": "boolean", "float": "float", "bytes": "bytes"}
 FLOW_FROM_AVRO = {"string": "string", "long": "varint", "boolean": "boolean", "float": "float", "bytes": "bytes"}
 _DUMMY_TRIP = "/var/tmp/frv-c06-dummy/trip/T"
@@ -80,7 +85,8 @@ def build_pools(trip):
     return pools
 
 
-STRING_POOLS = ("near", "uni", "kw", "soft", "vocab", "long", "reserved", "pay_class", "pay_args", "pay_assign", "pay_dict", "pay_tuple")
+STRING_POOLS = ("near", "uni", "kw", "soft", "vocab", "long", "reserved", "pay_class", "pay_args", "pay_assign", "pay_dict", "pay_tuple",
+                "pay_cr", "pay_nows")
 _POOL_SIZES = {k: len(v) for k, v in build_pools(_DUMMY_TRIP).items()}
 
 
@@ -180,10 +186,10 @@ def vias_for(recipe):
     if recipe["k"] == "enum":
         slot = recipe["slot"]
         if slot == "name":
-            return ("api", "api-bytes", "stream", "stream-bin", "json", "avro-doc", "avro-nodoc")
+            return ("api", "api-bytes", "stream", "stream-bin", "json", "avro-doc", "avro-nodoc") + TEXT_VIAS
         if slot == "field":
             return VIAS
-        return ("api", "api-bytes", "stream", "stream-bin", "json", "avro-doc")
+        return ("api", "api-bytes", "stream", "stream-bin", "json", "avro-doc") + TEXT_VIAS
     return VIAS
 
 
@@ -344,6 +350,28 @@ def _deliver(st, via, name, fields):
         return [(RecordDescriptor(name, [(t, n) for t, n in fields]), None)]
     if via == "api-bytes":
         return [(RecordDescriptor(_enc(name), [(_enc(t), _enc(n)) for t, n in fields]), None)]
+    if via in TEXT_VIAS:
+        text = definition_text(name, fields)
+        if via == "api-text":
+            return [(RecordDescriptor(text), None)]
+        if via == "api-none":
+            return [(RecordDescriptor(text, None), None)]
+        if via == "stream-nil":
+            enc = refcodec.Encoder()
+            enc.header()
+            enc._frame(enc.p.pack(enc._ext(refcodec.T_DESC, [mp.Str(_enc(text)), None])))
+            rd = RecordStreamReader(io.BytesIO(enc.getvalue()))
+            recs = list(rd)
+            return _registry(rd, recs)
+        path = os.path.join(files, "c.json")
+        with open(path, "w") as f:
+            f.write(json.dumps({"_type": "recorddescriptor", "_data": [text, None]}) + "\n")
+        rd = RecordReader(path)
+        try:
+            recs = list(rd)
+            return _registry(rd, recs)
+        finally:
+            rd.close()
     if via in ("stream", "stream-bin"):
         data = _stream_bytes(name, fields, via == "stream-bin")
         recs = list(RecordStreamReader(io.BytesIO(data)))
@@ -388,6 +416,53 @@ def _deliver(st, via, name, fields):
             rd.close()
         return [(r._desc, r) for r in recs]
     raise NotApplicable(via)
+
+
+def definition_text(name, fields):
+    """The deprecated text form of a definition: first line the type name, then one 'type name;' line per field."""
+    return name + "\n" + "".join("    %s %s;\n" % (t, n) for t, n in fields)
+
+
+def parse_text(text):
+    """What the text form denotes (documented format): lines split on '\\n' and stripped, empty lines skipped, first
+    line = type name, every other line '<type> <name>' separated by whitespace with an optional trailing ';'.
+    -> (name, fields) or None when a field line does not consist of exactly two words."""
+    import re
+
+    name, fields = None, []
+    for line in text.split("\n"):
+        line = line.strip()
+        if not line:
+            continue
+        if not name:
+            name = line
+            continue
+        words = re.split(r"\s+", line.rstrip(";"))
+        if len(words) != 2:
+            return None
+        fields.append((words[0], words[1]))
+    return name, fields
+
+
+class RegistryUnavailable(Exception):
+    pass
+
+
+def _registry(reader, recs):
+    """Descriptors a reader registered (a descriptor frame / line without a record leaves nothing else to observe).
+    Read through a tolerant accessor: when the attribute is gone the sub-check is inconclusive, not violated."""
+    packer = getattr(reader, "packer", None)
+    if packer is None:
+        packer = getattr(getattr(reader, "stream", None), "packer", None)
+    reg = getattr(packer, "descriptors", None)
+    if not isinstance(reg, dict):
+        raise RegistryUnavailable()
+    seen, out = set(), []
+    for d in reg.values():
+        if id(d) not in seen:
+            seen.add(id(d))
+            out.append((d, None))
+    return out
 
 
 def _json_hash(name, fields):
@@ -551,6 +626,12 @@ def execute(ctx, case):
         while u in [n for _, n in fields]:
             u += "_"
         fields.append(("string", u))
+    if via in TEXT_VIAS:
+        denoted = parse_text(definition_text(name, fields))
+        if denoted is not None and len(set(n for _, n in denoted[1])) != len(denoted[1]):
+            # blanks inside a mutated name make the text denote two fields of one name: duplicates are not generated
+            ctx.event("skipped:text_form_denotes_duplicate_fields")
+            return
     spy = st["spy"]
     spy.drain()
     trips = []
@@ -587,6 +668,10 @@ def execute(ctx, case):
         except NotApplicable as e:
             outcome = "n/a"
             exc = e
+        except RegistryUnavailable as e:
+            outcome = "n/a"
+            exc = e
+            ctx.event("registry_unavailable:" + via)
         except Exception as e:  # noqa: BLE001 - any exception class counts as a rejection
             outcome = "rejected"
             exc = e
@@ -635,13 +720,23 @@ def execute(ctx, case):
                     ctx.violation(None, "definition with an invalid %s accepted via %s" % (rreason, via),
                                   detail=dict(detail_def, reported={"name": rname, "fields": rfields}))
                     continue
-                want_names = [n for _, n in fields if isinstance(n, str) and not n.startswith("_")]
+                if via in TEXT_VIAS:
+                    denoted = parse_text(definition_text(name, fields))
+                    if denoted is not None and (rname, rfields) != (denoted[0], denoted[1]):
+                        ctx.violation(None, "%s: reported definition differs from what the definition text denotes" % what,
+                                      detail=dict(detail_def, reported={"name": rname, "fields": rfields}, denoted=denoted))
+                        continue
+                    want_names = [n for _, n in rfields]
+                else:
+                    want_names = [n for _, n in fields if isinstance(n, str) and not n.startswith("_")]
                 if [n for _, n in rfields] != want_names:
                     ctx.violation(None, "%s: reported field names differ from the names delivered" % what,
                                   detail=dict(detail_def, reported={"name": rname, "fields": rfields}))
                     continue
                 check_accepted(ctx, st, via, desc, rec, rfields, what)
                 ctx.event("accepted_valid")
+                if via in TEXT_VIAS:
+                    ctx.event("text_form_accepted:" + via)
                 continue
             if not ok:
                 ctx.violation(None, "definition with an invalid %s accepted via %s" % (reason, via),
@@ -679,7 +774,13 @@ def execute(ctx, case):
         if status != "compiled":
             continue
         rf = fields
-        if via in REPORTED_VIAS:
+        if via in TEXT_VIAS:
+            denoted = parse_text(definition_text(name, fields))
+            if denoted is None:
+                ctx.event("twin_unavailable_text_form")
+                continue
+            rf = denoted[1]
+        elif via in REPORTED_VIAS:
             rf = [("string" if via == "json-plain" else _avro_reported_type(t), n) for t, n in fields if not n.startswith("_")]
         tw = twin_shape(st, rf, wl)
         if tw is None:
@@ -725,6 +826,9 @@ def finish(ctx):
     ctx.require(ev.get("exec_sources", 0) > 0, "the exec spy never saw a source (shadowing flow.record.base.exec did not take effect)")
     ctx.require(ev.get("shape_compared", 0) > 0, "no exec'd source was compared with a twin")
     ctx.require(ev.get("tripwire_windows", 0) > 0, "tripwires never armed")
+    for v in TEXT_VIAS:
+        ctx.require(ev.get("text_form_accepted:" + v, 0) > 0, "no definition without a field list was accepted via %s (path not exercised)" % v)
+        ctx.require(ev.get("registry_unavailable:" + v, 0) == 0, "the descriptor registry of the reader could not be inspected (%s)" % v)
     ctx.require(ev.get("twin_unavailable", 0) * 20 <= max(ev.get("exec_source:compiled", 0), 1), "benign twins could not be generated for more than 5% of the sources")
     for q in ANCHORS[:3]:
         ctx.require(ctx.reach.get(q, 0) > 0, "anchor %s was never entered" % q)
